@@ -22,7 +22,7 @@ contract(
         # ... and columns are pairwise disjoint
         ('disjoint', f'all(not (r in group(result, j)) for i in range({P}) for j in range({P}) if i != j for r in group(result, i))'),
     ],
-    modifies=[], theories=['strided_ranges'],
+    modifies=[], theories=['strided_ranges', 'divmod_product'],
 )
 
 contract(
@@ -37,7 +37,7 @@ contract(
         ('members_in_world', f'all(0 <= r and r < world_size for i in range(grad_workers) for r in group(result, i))'),
         ('disjoint', 'all(not (r in group(result, j)) for i in range(grad_workers) for j in range(grad_workers) if i != j for r in group(result, i))'),
     ],
-    modifies=[], theories=['strided_ranges'],
+    modifies=[], theories=['strided_ranges', 'divmod_product'],
 )
 
 # ---------------------------------------------------------------- class invariant of KAISAAssignment
@@ -63,12 +63,12 @@ contract('kfac.assignment:KAISAAssignment.broadcast_gradients', props=['C06', 'C
          requires=[INV],
          ensures=[('not_comm_opt', 'result == (self.grad_workers < self.world_size)'),
                   ('comm_opt_never', 'implies(self.grad_workers == self.world_size, not result)')],
-         modifies=[], theories=['strided_ranges'])
+         modifies=[], theories=['strided_ranges', 'divmod_product'])
 contract('kfac.assignment:KAISAAssignment.broadcast_inverses', props=['C06', 'C13'], result=KBool,
          requires=[INV],
          ensures=[('not_mem_opt', 'result == (self.grad_workers > 1)'),
                   ('mem_opt_never', 'implies(self.grad_workers == 1, not result)')],
-         modifies=[], theories=['strided_ranges'])
+         modifies=[], theories=['strided_ranges', 'divmod_product'])
 contract('kfac.assignment:KAISAAssignment.inv_worker', props=['C06', 'C13'], result=KInt,
          params={'layer': KStr, 'factor': KStr},
          requires=[INV, HAS_LAYER, ('known_factor', 'factor in self._inv_assignments[layer]')],
@@ -76,7 +76,7 @@ contract('kfac.assignment:KAISAAssignment.inv_worker', props=['C06', 'C13'], res
                   ('valid_rank', '0 <= result and result < self.world_size'),
                   ('inside_worker_group', 'result in self._grad_worker_groups[layer].ranks')],
          hints=[('witness', f'pt(self._inv_assignments[layer][factor] % {PS}, {PS}, self._inv_assignments[layer][factor] // {PS}) == self._inv_assignments[layer][factor]')],
-         modifies=[], theories=['strided_ranges'])
+         modifies=[], theories=['strided_ranges', 'divmod_product'])
 contract('kfac.assignment:KAISAAssignment.is_grad_worker', props=['C06', 'C13'], result=KBool,
          params={'layer': KStr},
          requires=[INV, HAS_LAYER],
@@ -84,7 +84,7 @@ contract('kfac.assignment:KAISAAssignment.is_grad_worker', props=['C06', 'C13'],
                   ('column_of_inverse_worker',
                    f'all(result == (self.local_rank % {PS} == self._inv_assignments[layer][f] % {PS}) for f in self._inv_assignments[layer])')],
          hints=[('local_rank_witness', f'pt(self.local_rank % {PS}, {PS}, self.local_rank // {PS}) == self.local_rank')],
-         modifies=[], theories=['strided_ranges'])
+         modifies=[], theories=['strided_ranges', 'divmod_product'])
 contract('kfac.assignment:KAISAAssignment.src_grad_worker', props=['C06', 'C13'], result=KInt,
          params={'layer': KStr},
          requires=[INV, HAS_LAYER],
@@ -96,15 +96,15 @@ contract('kfac.assignment:KAISAAssignment.src_grad_worker', props=['C06', 'C13']
                 ('own_row', 'self.local_rank in self._grad_receiver_groups[layer].ranks'),
                 ('witness', f'pt(self._inv_assignments[layer][key_at(self._inv_assignments[layer], 0)] % {PS}, {PS}, self.local_rank // {PS}) '
                             'in (self._grad_worker_groups[layer].ranks & self._grad_receiver_groups[layer].ranks)')],
-         modifies=[], theories=['strided_ranges'])
+         modifies=[], theories=['strided_ranges', 'divmod_product'])
 contract('kfac.assignment:KAISAAssignment.get_layers', props=['C06'], result=KList(KStr),
          requires=[INV],
          ensures=[('all_layers', 'len(result) == len(self._inv_assignments) and all(result[j] == key_at(self._inv_assignments, j) for j in range(len(result)))')],
-         modifies=[], theories=['strided_ranges'])
+         modifies=[], theories=['strided_ranges', 'divmod_product'])
 contract('kfac.assignment:KAISAAssignment.get_factors', props=['C06'], result=KList(KStr),
          params={'layer': KStr}, requires=[INV, HAS_LAYER],
          ensures=[('all_factors', 'len(result) == len(self._inv_assignments[layer]) and all(result[j] == key_at(self._inv_assignments[layer], j) for j in range(len(result)))')],
-         modifies=[], theories=['strided_ranges'])
+         modifies=[], theories=['strided_ranges', 'divmod_product'])
 contract('kfac.assignment:KAISAAssignment.factor_group', props=['C06', 'C13'], result=KRef('ProcessGroup'),
          params={'layer': KStr, 'factor': KStr},
          ensures=[('world_group', 'result is None')], modifies=[])
